@@ -111,6 +111,7 @@ def run(tier, seed):
                 ("mc_seed", 4096 * mult // threads if pi == 0 else 1024, {}),
                 ("mixed", 400 * mult if pi == 0 else 400, {"mixseed": 1 + pi}),
                 ("seeds_mixed", 50 if pi == 0 else 400, {}),
+                ("proof_clones", 16 if pi == 0 else 64, {}),
                 ("mc_card", 64 * mult if pi == 0 else 64, {"dc": 2, "ch": 8, "cw": 8}),
                 ("mc_card_big", 4 * mult if pi == 0 else 4, {"dc": 4, "ch": 26, "cw": 26}),
                 ("mc_card_mid", 8 * mult if pi == 0 else 8, {"dc": 3, "ch": 10, "cw": 12}),
@@ -183,6 +184,17 @@ def run(tier, seed):
         distinct_check(mon, "seeds_of_all_modules_drawn_alternately", pooled, viol, max_repeats=3)
     else:
         mon.inconc("no alternately drawn module seeds observed")
+    # ---- servers that stem from copies of one pending SrpProof: every one draws its own first reconnect challenge
+    firsts = []
+    for pi in (0, 1):
+        for t in results[pi].get("proof_clones", []):
+            for item in t:
+                firsts.extend(bytes.fromhex(x) for x in item.split("/") if x)
+    if firsts:
+        distinct_check(mon, "proof_clones", firsts, viol)
+        mon.cell(("proof_clones", "first_challenges_unique"))
+    else:
+        mon.inconc("no servers built from copies of one SrpProof observed")
     # ---- simple sources
     for src, width in (("salt", 32), ("integrity_salt", 16), ("pin_salt", 16), ("mc_seed", 8)):
         a, b = flat(0, src), flat(1, src)
